@@ -111,7 +111,7 @@ CHECKS = {
                  # the periodic top tree takes operator flags as well: the periodic case sets run it as four flagged calls in a quarter of the cases; only that key is judged here
                  {"bin": "h_fmm", "mode": "c10"}],
         "key_filter": ["^c12", "^c10:staged-top-tree:", "^index-multiset", "^harness:", "^c06:symbolic", "^(asan|ubsan|lsan|tsan|memcheck|assert|glibcxx-assert|abort|signal|hang|exit):"],
-        "rule": "the named composite flags the README documents (TbfNearField, TbfFarField, TbfNearAndFarFields, TbfBottomToTopStages, TbfTransferStages, TbfTopToBottomStages) are used as such: each alone must call exactly the operators listed for it, and the histories {FarField;NearField}, {NearField;FarField}, {NearAndFarFields}, the documented three-stage split and {BottomToTop;NearField;M2L;TopToBottom} head every sample of staged histories on every executor. cases cycle through three history families on random trees: single flags (6 runs + 6 named composites), staged histories (quick 24 sampled incl. the documented split; thorough all %d), upper levels 0..height (height+1 runs with P-rec + P-set model); h_sched adds six families: upper levels 0..height+1 on the OpenMP executor, on both target/source executors, staged histories on the OpenMP executor and on both target/source executors, every single flag alone on the OpenMP executor and on both target/source executors (events == model masked by the flag, only the flag's output kind changes). non-trivial = tree with >= 2 particles / far or near interactions / height >= 3 respectively; distinct = family + input signature.",
+        "rule": "the staged-history cases on the OpenMP executors (plain and target/source) also run one full execute() under two shim schedules, judged by the O-dag oracle and by bit-equality with the sequential executor ('staged == full' presupposes that the full run does not depend on the schedule). the named composite flags the README documents (TbfNearField, TbfFarField, TbfNearAndFarFields, TbfBottomToTopStages, TbfTransferStages, TbfTopToBottomStages) are used as such: each alone must call exactly the operators listed for it, and the histories {FarField;NearField}, {NearField;FarField}, {NearAndFarFields}, the documented three-stage split and {BottomToTop;NearField;M2L;TopToBottom} head every sample of staged histories on every executor. cases cycle through three history families on random trees: single flags (6 runs + 6 named composites), staged histories (quick 24 sampled incl. the documented split; thorough all %d), upper levels 0..height (height+1 runs with P-rec + P-set model); h_sched adds six families: upper levels 0..height+1 on the OpenMP executor, on both target/source executors, staged histories on the OpenMP executor and on both target/source executors, every single flag alone on the OpenMP executor and on both target/source executors (events == model masked by the flag, only the flag's output kind changes). non-trivial = tree with >= 2 particles / far or near interactions / height >= 3 respectively; distinct = family + input signature.",
         "require_events": ["single-flag-runs", "staged-histories", "upper-level-runs", "named-flag-runs", "named-flag-partitions-checked"],
         "assumptions": [],
     },
@@ -194,7 +194,7 @@ CHECKS = {
         "claim": "On every explored pair of source/target sets each target accumulated exactly one contribution from each source (model count when periodic), nothing else; source multipoles and target locals equalled the model cell by cell; the OpenMP target/source executor gave bit-identical trees under all explored schedules with all observed conflicts ordered by declared dependencies.",
         "note": "Sources carry no result storage and targets no multipoles by type (NbRhs=0 / void_data), which is observed by the recorder never being handed such an object.",
         "jobs": [{"bin": "h_fmm", "mode": "c09"}, {"bin": "h_sched", "mode": "c09"}, {"bin": "h_omp", "mode": "c09"}, {"bin": "h_specx", "mode": "c09"}, {"bin": "h_starpu", "mode": "c09"}],
-        "rule": "case = independent source and target sets (independent / disjoint halves / identical positions / sources in one leaf / targets in one leaf / single source or target) x distributions x geometry x block sizes x both modes; OpenMP executor under the C03 schedule sets (h_sched). non-trivial = more than 3 tasks per schedule (h_sched) / at least one far or near leaf pair (h_fmm); distinct = configuration hash.",
+        "rule": "case = independent source and target sets (independent / disjoint halves / identical positions / sources in one leaf / targets in one leaf / single source or target) x distributions x geometry x block sizes x both modes; OpenMP executor under the C03 schedule sets (h_sched); plus the sequential target/source executor with the Hilbert ordering (per-pair counts only: the geometric cell clauses are the known finding of C11). non-trivial = more than 3 tasks per schedule (h_sched) / at least one far or near leaf pair (h_fmm); distinct = configuration hash.",
         "require_events": ["schedules-executed", "tasks-executed", "poly-results-checked", "tsm-pairs-checked", "tsm-cells-checked"],
         "assumptions": [],
     },
@@ -225,7 +225,7 @@ CHECKS = {
         "claim": "On every explored tree, executor (sequential; OpenMP under all shim schedules with 1..16 workers) and merge order, the merged counters equalled the model's number of leaves, parent-child links, transfer pairs and particle pairs, doubled after a second execute, and the wrapped kernel's results were bit-identical to the unwrapped kernel's; the timer wrapper left results unchanged.",
         "note": "Elapsed times of the timer wrapper are never judged. Counter + target/source executor is outside the property's quantifier (it does not compile, DESIGN.md section 7 D9).",
         "jobs": [{"bin": "h_fmm", "mode": "c18"}, {"bin": "h_sched", "mode": "c18"}, {"bin": "h_sched_tsan", "mode": "c18"}],
-        "rule": "cases = random trees (Dim 1..4 sequential, Dim 1..3 OpenMP; Morton and periodic Morton) with counter<P-poly>, counter<TbfTestKernel> or timer<P-poly>; per-worker counters merged in every permutation (<= 5 workers) or 6 random ones; OpenMP runs under the C03 schedule sets; part of the runs build the executor from a fresh user-built counter kernel (kernel-object constructor), part run a second execute() after the number of threads was lowered (totals must still double: the counts of workers no longer used belong to the totals). non-trivial = at least one transfer or particle pair expected; distinct = configuration signature.",
+        "rule": "cases = random trees (Dim 1..4 sequential, Dim 1..3 OpenMP; Morton and periodic Morton) with counter<P-poly>, counter<TbfTestKernel> or timer<P-poly>; per-worker counters merged in every permutation (<= 5 workers) or 6 random ones; OpenMP runs under the C03 schedule sets; part of the runs build the executor from a fresh user-built counter kernel (kernel-object constructor), part run a second execute() after the number of threads was lowered (totals must still double: the counts of workers no longer used belong to the totals); every fifth case has its upper working level at or beyond the leaf level (no far field: every far-field counter, the leaf operators included, must stay 0). non-trivial = at least one transfer or particle pair expected; distinct = configuration signature.",
         "require_events": ["counter-values-checked", "merge-orders", "worker-copies-merged", "schedules-executed", "timer-merges", "executes-after-lowering-threads"],
         "assumptions": [],
     },
@@ -277,13 +277,15 @@ CHECKS = {
         "claim": "No sanitizer report, assertion failure, leak or hook failure occurred on any explored execution of building, executing (sequential, target/source, periodic, OpenMP under hostile schedules), rebuilding, querying and destroying trees. This is 'no report on the executions explored', not memory safety: red-zone tools miss non-adjacent and intra-object overflows (the bounds hook narrows this for group buffers only).",
         "note": "Only keys produced by a tool (asan/ubsan/lsan/tsan/memcheck/assert/glibcxx-assert/abort/signal/hang) count here; behavioural keys of the same runs belong to their own checks. MSan is not used (uninstrumented libstdc++/FFTW).",
         "jobs": [{"bin": "h_fmm", "mode": "c01"}, {"bin": "h_fmm", "mode": "c09"}, {"bin": "h_fmm", "mode": "c10"}, {"bin": "h_tree", "mode": "c13"},
-                 {"bin": "h_sched", "mode": "c03"}, {"bin": "h_sched", "mode": "c09"}, {"bin": "h_sched_tsan", "mode": "c03"}, {"bin": "h_mem", "mode": "c14", "thorough_only": True},
+                 {"bin": "h_sched", "mode": "c03"}, {"bin": "h_sched", "mode": "c09"}, {"bin": "h_sched_tsan", "mode": "c03"}, {"bin": "h_mem", "mode": "c14"},
+                 # the mock Specx / StarPU executors are the in-library users of the size getters and of non-owning group views (getDataPtrsAndSizes -> container built on foreign memory)
+                 {"bin": "h_specx", "mode": "c03"}, {"bin": "h_starpu", "mode": "c03"},
                  {"bin": "h_num_asan", "mode": "c04", "env": {"VH_BOUNDS": "/verif/bounds.json"}, "timeout": 3000}, {"bin": "h_num_asan", "mode": "c05", "env": {"VH_BOUNDS": "/verif/bounds.json"}, "timeout": 3000}, {"bin": "h_num_asan", "mode": "c20", "env": {"VH_BOUNDS": "/verif/bounds.json"}},
                  {"bin": "h_mc", "mode": "c10", "wrapper": VALGRIND, "per_case": True, "stride": 2, "limit": {"quick": 24, "thorough": 150}, "env": {"VH_CASE_TIMEOUT": "1200", "VH_NO_LEAK_CHECK": "1"}, "timeout": 2400},
                  {"bin": "h_mc", "mode": "c09", "wrapper": VALGRIND, "per_case": True, "stride": 2, "limit": {"quick": 12, "thorough": 80}, "env": {"VH_CASE_TIMEOUT": "1200", "VH_NO_LEAK_CHECK": "1"}, "timeout": 2400},
                  {"bin": "h_mc", "mode": "c01", "wrapper": VALGRIND, "per_case": True, "stride": 2, "limit": {"quick": 12, "thorough": 80}, "env": {"VH_CASE_TIMEOUT": "1200", "VH_NO_LEAK_CHECK": "1"}, "timeout": 2400}],
         "key_filter": ["^(asan|ubsan|lsan|tsan|memcheck|assert|glibcxx-assert|abort|signal|hang|exit):"],
-        "rule": "plus the C04 / C05 / C20 case sets in an ASan+UBSan+LSan build of the numerical engine (h_num_asan: the rotation, uniform and direct P2P kernels themselves; accuracy bounds are not judged in that build). cases = the quick (resp. thorough) case sets of C01, C09, C10, C13, C03 (ASan+UBSan, TSan for the scheduler runs) and a strided subset of the Dim-3 C01/C09/C10 cases under valgrind memcheck with origin tracking. non-trivial / distinct as in the contributing checks. Evidence lists the jobs and their builds.",
+        "rule": "plus the memory engine (C14 case set: moved, reused, viewed blocks and groups) and the C03 case sets of the mock Specx / StarPU executors (the in-library users of size getters and non-owning group views) in both tiers; plus the C04 / C05 / C20 case sets in an ASan+UBSan+LSan build of the numerical engine (h_num_asan: the rotation, uniform and direct P2P kernels themselves; accuracy bounds are not judged in that build). cases = the quick (resp. thorough) case sets of C01, C09, C10, C13, C03 (ASan+UBSan, TSan for the scheduler runs) and a strided subset of the Dim-3 C01/C09/C10 cases under valgrind memcheck with origin tracking. non-trivial / distinct as in the contributing checks. Evidence lists the jobs and their builds.",
         "require_events": ["pairs-checked", "periodic-runs", "rebuild-cycles", "schedules-executed"],
         "assumptions": ["a clean run is 'no report on K executions reaching these operators', not memory safety"],
     },
